@@ -383,14 +383,89 @@ fn new_session<'a>(out: &'a mut TraceOut, entries: Vec<Entry>, dict: Dict, data:
     }
 }
 
-/// Picks a content + configuration of the family. `scale` in 0..=2 selects typical sizes.
-pub fn random_file(r: &mut R, heavy: bool) -> (Cfg, Vec<Entry>) {
+/// Deterministic corner files: the first scenarios of every family run on these, so that the
+/// shapes a random draw rarely produces (a lone empty key, 255 index levels, an index level
+/// >= 2 that really fills blocks, entries larger than a block ...) are always covered.
+pub fn corner_files() -> Vec<(Cfg, Vec<Entry>)> {
+    let c = |codec: u8, bs: usize, k: usize, l: u8| Cfg { codec, level: 0, block_size: bs, interval: k, levels: l };
+    let e = |k: &[u8], v: &[u8]| (k.to_vec(), v.to_vec());
+    let longs = |n: u32, vlen: usize| -> Vec<Entry> {
+        (0..n).map(|i| (long_key(1 + 2 * i), value_for(i + 1, vlen))).collect()
+    };
+    let mut v: Vec<(Cfg, Vec<Entry>)> = Vec::new();
+    // empty files
+    v.push((c(0, 1024, 8, 0), vec![]));
+    v.push((c(5, 1024, 8, 2), vec![]));
+    // the empty key, alone and with neighbours; empty values
+    v.push((c(0, 1024, 8, 0), vec![e(b"", b"")]));
+    v.push((c(0, 1024, 1, 2), vec![e(b"", b"")]));
+    v.push((c(5, 1024, 8, 1), vec![e(b"", b"x")]));
+    v.push((c(0, 1024, 8, 0), vec![e(b"k", b"")]));
+    v.push((c(0, 1024, 2, 1), vec![e(b"", b""), e(b"\x00", b""), e(b"\x00\x00", b""), e(b"\x01", b"")]));
+    v.push((c(0, 1024, 1, 0), vec![e(b"", b"v"), e(b"\xff", b""), e(b"\xff\xff", b"w")]));
+    // many tiny entries (2 bytes each) across several blocks
+    v.push((c(0, 1024, 3, 2), {
+        let mut ks = alpha_strings(3);
+        ks.sort();
+        ks.into_iter().map(|k| (k, vec![])).collect()
+    }));
+    // deep trees: 300-byte keys, 1 KiB blocks -> 4 children per index block
+    v.push((c(0, 1024, 1, 2), longs(40, 0)));
+    v.push((c(0, 1024, 2, 3), longs(70, 0)));
+    v.push((c(0, 1024, 8, 3), longs(140, 0)));
+    v.push((c(5, 1024, 1, 4), longs(140, 7)));
+    v.push((c(0, 1024, 3, 4), longs(300, 0)));
+    v.push((c(0, 1024, 8, 2), longs(33, 400)));
+    // entries larger than a block
+    v.push((c(0, 1024, 8, 1), (0..6u32).map(|i| ((i * 3).to_be_bytes().to_vec(), value_for(i + 1, 3000))).collect()));
+    v.push((c(3, 1024, 1, 2), (0..9u32).map(|i| (long_key(i + 1), value_for(i + 1, 1100))).collect()));
+    v.push((c(0, 4096, 8, 0), vec![(vec![7u8; 5000], value_for(1, 20000)), (vec![8u8; 1], value_for(2, 0))]));
+    // extreme index depths
+    v.push((c(0, 1024, 8, 255), (0..3u32).map(|i| (i.to_be_bytes().to_vec(), value_for(i + 1, 4))).collect()));
+    v.push((c(0, 1024, 8, 254), (0..12u32).map(|i| (long_key(i), value_for(i + 1, 4))).collect()));
+    v.push((c(5, 1024, 8, 7), longs(20, 0)));
+    // every codec on a multi-block file
+    for codec in 0..6u8 {
+        v.push((c(codec, 1024, 2, 2), longs(25, 127)));
+    }
+    // a block larger than 64 KiB through every codec (codec-internal buffering limits)
+    for codec in 0..6u8 {
+        v.push((c(codec, 200_000, 8, 1), (0..150u32).map(|i| ((i * 2).to_be_bytes().to_vec(), value_for(i + 1, 1100))).collect()));
+    }
+    // key / value lengths on the framing boundaries 2^7, 2^14, 2^21 (-1, +0, +1)
+    for (j, len) in [127usize, 128, 129, 16383, 16384, 16385, 2097151, 2097152, 2097153].iter().enumerate() {
+        let j = j as u32;
+        v.push((c(0, 1024, 8, (j % 3) as u8), vec![
+            (vec![1u8], value_for(1, 3)),
+            (vec![2u8], value_for(2, *len)),
+            (vec![3u8; *len], value_for(3, 5)),
+            (vec![4u8], value_for(4, 1)),
+        ]));
+    }
+    // block-size corners
+    for bs in [0usize, 1, 1023, 1025, 2000, 65536] {
+        v.push((c(0, bs, 8, 2), (0..200u32).map(|i| ((i * 2).to_be_bytes().to_vec(), value_for(i + 1, 20))).collect()));
+    }
+    v
+}
+
+/// Picks a content + configuration of the family: corner files first, then random draws.
+pub fn random_file_capped(r: &mut R, idx: u64, heavy: bool, max_key: usize) -> (Cfg, Vec<Entry>) {
+    let corners = corner_files();
+    if (idx as usize) < corners.len() {
+        let f = &corners[idx as usize];
+        // TLC compares probe strings bytewise; megabyte-long keys are only used where no
+        // probe derived from them is needed (round trips, layout)
+        if f.1.iter().all(|(k, _)| k.len() <= max_key) {
+            return f.clone();
+        }
+    }
     let kind = random_kind(r);
     let deep = r.gen_bool(0.5);
     let cfg = if deep { tree_cfg(r) } else { random_cfg(r, heavy) };
     let n = match kind {
         KeyKind::Alpha => r.gen_range(0..=60),
-        KeyKind::Long => *pick(r, &[1usize, 2, 5, 13, 20, 33, 47, 70]),
+        KeyKind::Long => *pick(r, &[1usize, 2, 5, 13, 20, 33, 47, 70, 130]),
         KeyKind::Mixed => r.gen_range(2..=50),
         KeyKind::Counter => *pick(r, &[0usize, 1, 2, 3, 10, 100, 300]),
     };
@@ -403,9 +478,13 @@ pub fn random_file(r: &mut R, heavy: bool) -> (Cfg, Vec<Entry>) {
     (cfg, gen_entries(r, kind, n, big))
 }
 
+pub fn random_file(r: &mut R, idx: u64, heavy: bool) -> (Cfg, Vec<Entry>) {
+    random_file_capped(r, idx, heavy, usize::MAX)
+}
+
 /// C01: write, open, forward scan, backward scan.
-pub fn scn_roundtrip(out: &mut TraceOut, r: &mut R, heavy: bool, ver: u8) {
-    let (mut cfg, entries) = random_file(r, heavy);
+pub fn scn_roundtrip(out: &mut TraceOut, r: &mut R, idx: u64, heavy: bool, ver: u8) {
+    let (mut cfg, entries) = random_file(r, idx, heavy);
     if ver == 1 {
         cfg.levels = 0;
     }
@@ -422,8 +501,8 @@ pub fn scn_roundtrip(out: &mut TraceOut, r: &mut R, heavy: bool, ver: u8) {
 
 /// C02: every probe class x {ge, le, eq} on a fresh cursor and on a reset cursor that
 /// had been moved elsewhere.
-pub fn scn_seeks(out: &mut TraceOut, r: &mut R, heavy: bool, ver: u8, max_probes: usize) {
-    let (mut cfg, entries) = random_file(r, heavy);
+pub fn scn_seeks(out: &mut TraceOut, r: &mut R, idx: u64, heavy: bool, ver: u8, max_probes: usize) {
+    let (mut cfg, entries) = random_file_capped(r, idx, heavy, 20_000);
     if ver == 1 {
         cfg.levels = 0;
     }
@@ -491,8 +570,8 @@ fn random_op(r: &mut R, probes: &[Vec<u8>]) -> Op {
 
 /// C03: random histories with clones; runs of relative moves so that block and
 /// index-block boundaries are crossed between absolute moves.
-pub fn scn_history(out: &mut TraceOut, r: &mut R, heavy: bool, ver: u8, nops: usize) {
-    let (mut cfg, entries) = random_file(r, heavy);
+pub fn scn_history(out: &mut TraceOut, r: &mut R, idx: u64, heavy: bool, ver: u8, nops: usize) {
+    let (mut cfg, entries) = random_file_capped(r, idx, heavy, 20_000);
     if ver == 1 {
         cfg.levels = 0;
     }
